@@ -98,6 +98,12 @@ pub struct GenCfg {
     ///  sorted_aggregate  aggregate while a sort is in effect (C04-stale-sort-after-aggregate)
     ///  multi_take_agg  two takes, then aggregate/group (C07-sort-column-pruned-before-take)
     ///  mul_right       `a * <expr>` with a non-atomic / computed right operand (C02-mul-right-operand-parens)
+    ///  wild_except     `select !{..}` over a wildcard frame (wrong without EXCLUDE: C05-wildcard-helper-leak);
+    ///                  with this hazard every program uses wildcard relations
+    ///  wild_dup_join   a join of two wildcard relations that share a column name, not projected afterwards
+    ///                  (C07-wildcard-join-duplicate-names); implied by the wild_except hazards
+    ///  wild_except_twice   a second `select !{..}` over a wildcard frame (C05-consecutive-exclusions-forget-first)
+    ///  wild_except_sorted  `select !{..}` over a wildcard frame while a sort is in effect (C05-excluded-sort-key-returns)
     pub hazards: Vec<&'static str>,
     /// `/` between two integer-typed operands (excluded under `generic`, whose `/` is the engine's)
     pub int_divf: bool,
@@ -135,6 +141,8 @@ pub struct Gen<'t, 'd> {
     names: Names,
     /// this program uses relations whose columns the compiler does not know (`from t` unprojected)
     pub wild_prog: bool,
+    /// number of `select !{..}` steps over a wildcard frame so far
+    pub n_wild_except: usize,
     cur_src_let: bool,
     after_append: bool,
     in_sub: bool,
@@ -163,7 +171,9 @@ pub struct Names {
 pub const HAZARD_NAMES: &[&str] = &[
     "select", "order", "group", "from", "table", "user", "a b", "A", "Mixed", "é", "naïve col",
     "x\"y", "it's", "1st", "table_0", "table_1", "table_2", "_expr_0", "_expr_1", "_expr_2", "where",
-    "having", "end", "limit", "offset", "union", "key", "value", "UPPER",
+    "having", "end", "limit", "offset", "union", "key", "value", "UPPER", "current_timestamp", "current_date",
+    "current_user", "assert_rows_modified", "localtimestamp", "session_user", "default", "primary", "references",
+    "interval", "timestamp", "natural", "using", "window", "partition", "over", "rows", "range", "distinct", "case",
 ];
 
 impl Names {
@@ -228,6 +238,7 @@ impl<'t, 'd> Gen<'t, 'd> {
             rel_fresh: 0,
             names: Names::plain(),
             wild_prog: false,
+            n_wild_except: 0,
             cur_src_let: false,
             after_append: false,
             in_sub: false,
@@ -243,6 +254,16 @@ impl<'t, 'd> Gen<'t, 'd> {
 
     pub fn haz(&self, h: &str) -> bool {
         self.cfg.hazards.iter().any(|x| *x == h)
+    }
+
+    /// hazards under which every program uses wildcard relations and joins of two wildcard
+    /// relations stay un-projected
+    fn haz_wild_join(&self) -> bool {
+        self.haz_wild_except() || self.haz("wild_dup_join")
+    }
+
+    fn haz_wild_except(&self) -> bool {
+        self.haz("wild_except") || self.haz("wild_except_twice") || self.haz("wild_except_sorted")
     }
 
     fn touch(&mut self, h: &'static str) {
@@ -1535,7 +1556,15 @@ impl<'t, 'd> Gen<'t, 'd> {
         if dup && self.haz("dup_names") {
             self.touch("dup_names");
         }
-        if dup && !self.haz("dup_names") {
+        // two wildcard relations under the exclusion hazards: the projection is `l.*, r.*`, which
+        // is not subject to that finding; keep the frame a wildcard
+        let all_wild = self.haz_wild_join()
+            && frame.cols.iter().all(|c| c.rel.as_ref().is_some_and(|r| frame.wild_rels.contains(r)));
+        if dup && all_wild {
+            // finding C07-wildcard-join-duplicate-names
+            self.touch("wild_dup_join");
+        }
+        if dup && !self.haz("dup_names") && !all_wild {
             let mut items = vec![];
             let mut nf = Frame::default();
             let mut used: Vec<String> = vec![];
@@ -1909,7 +1938,27 @@ impl<'t, 'd> Gen<'t, 'd> {
                 w[10] = 0;
             }
             if !known {
-                w[10] = 0;
+                // exclusion over a wildcard frame
+                if !self.haz_wild_except() {
+                    w[10] = 0;
+                } else if self.n_wild_except >= 1 && !self.haz("wild_except_twice") {
+                    // a second exclusion forgets the first (finding C05-consecutive-exclusions-forget-first)
+                    w[10] = 0;
+                } else if ord.ordered && !self.haz("wild_except_sorted") {
+                    // excluding a key of the sort in effect (finding C05-excluded-sort-key-returns)
+                    w[10] = 0;
+                } else if !(self.after_append && !self.haz("append_free")) {
+                    w[10] = 12;
+                }
+                if self.haz_wild_join() {
+                    // keep the frame a wildcard, prefer joins of two wildcard relations
+                    w[0] = w[0].min(1);
+                    w[6] = w[6].min(1);
+                    w[7] = w[7].min(1);
+                    if w[5] > 0 {
+                        w[5] = if frame.wild_rels.len() < 2 { 12 } else { 2 };
+                    }
+                }
             }
             let choice = self.t.weighted(&w);
             if !matches!(choice, 0 | 1 | 2) {
@@ -2014,6 +2063,12 @@ impl<'t, 'd> Gen<'t, 'd> {
                                 continue;
                             }
                             self.touch("drop_agg");
+                        }
+                        if !known {
+                            self.touch("wild_except");
+                            if self.n_wild_except >= 1 { self.touch("wild_except_twice"); }
+                            if ord.ordered { self.touch("wild_except_sorted"); }
+                            self.n_wild_except += 1;
                         }
                         frame.cols.remove(i);
                         Some(Step::SelectExcept(vec![ColRef { idx: i, text }]))
@@ -2181,7 +2236,7 @@ impl<'t, 'd> Gen<'t, 'd> {
 
     pub fn gen_prog(mut self) -> (Db, Prog, Frame, Vec<&'static str>) {
         self.gen_db();
-        self.wild_prog = self.cfg.allow_wild && self.t.chance(1, 4);
+        self.wild_prog = self.cfg.allow_wild && (self.t.chance(1, 4) || self.haz_wild_join());
         self.gen_funcs();
         self.gen_lets();
         let ns = self.t.choose(self.cfg.max_steps + 1);
